@@ -2,7 +2,7 @@
    Part 1: the specification over R: design rows, normal matrix H^T H, "M is an inverse of N", the five
            DOP values as functions of the cofactor matrix M.
    Part 2: an executable counterpart over Q used by the correspondence check: the design rows are taken
-           from 90-bit enclosures of cos/sin (coq-interval), the normal matrix is inverted exactly
+           from 180-bit enclosures of cos/sin (coq-interval), the normal matrix is inverted exactly
            (integer adjugate / determinant on the grid 2^-64; N adj = det I is checked, not assumed), traces are compared with the squares of
            the implementation's doubles. *)
 From Coq Require Import ZArith QArith Qabs Qround Bool List Reals.
@@ -71,7 +71,7 @@ Open Scope Q_scope.
 Module F := SpecificFloat BigIntRadix2.
 Module I := FloatIntervalFull F.
 
-Definition prec := F.PtoP 90.
+Definition prec := F.PtoP 180.
 
 Definition dy_toF (d : dy) : option F.type :=
   match d with
